@@ -106,7 +106,7 @@ def who_may_write(ctx, flow, effs):
                 ctx.violated("C14.1", e.fn, "%s writes to a path that does not derive from the destination argument" % e.prim, norm(e.site) + " :: " + norm(a), path=where)
             else:
                 ctx.holds("C14.1", e.fn, "%s writes below the destination argument only" % e.prim, norm(e.site) + " :: " + norm(a), path=where)
-    ctx.floor("FS-mutating sites reachable from rebuild", 3, n)
+    ctx.floor("FS-mutating sites reachable from rebuild", 2, n)
 
 
 def no_clobber(ctx, copyfns):
@@ -148,8 +148,16 @@ def no_clobber(ctx, copyfns):
                             if l is not None and r is not None:
                                 op = x.ops[0]
                                 return {ast.Lt: l < r, ast.LtE: l <= r, ast.Gt: l > r, ast.GtE: l >= r, ast.Eq: l == r, ast.NotEq: l != r}.get(type(op))
-                            if any(isinstance(c, ast.Call) and isinstance(c.func, ast.Name) and c.func.id == "len" for c in ast.walk(x)):
-                                return True       # the destination has a parent directory
+                            # the destination has parent directories: len(<its parts>) is taken as a large number
+                            def num(y):
+                                if isinstance(y, ast.Call) and isinstance(y.func, ast.Name) and y.func.id == "len":
+                                    return 1000
+                                if isinstance(y, ast.Constant) and isinstance(y.value, int) and not isinstance(y.value, bool):
+                                    return y.value
+                                return None
+                            l, r = num(x.left), num(x.comparators[0])
+                            if l is not None and r is not None and 1000 in (l, r) and l != r:
+                                return {ast.Lt: l < r, ast.LtE: l <= r, ast.Gt: l > r, ast.GtE: l >= r, ast.Eq: l == r, ast.NotEq: l != r}.get(type(x.ops[0]))
                         return None
                     label = "source %s, destination %s%s" % ("exists" if s_exists else "missing", "exists" if d_exists else "missing",
                                                               (", size(source) %s size(destination)" % order) if d_exists else "")
@@ -187,80 +195,164 @@ def candidate_loop(ctx, fn, node, name):
     return None, None, []
 
 
+def copy_wrappers(ctx, copyfns, reach):
+    """Package functions that hand one of their own parameters on, unchanged, as the source of a copy function (a helper
+    such as _place(source, dest, relpath)): {Func: (source param, None, call)}; closed transitively."""
+    out = dict(copyfns)
+    changed = True
+    while changed:
+        changed = False
+        for cf, (src_p, dst_p, _) in list(out.items()):
+            for caller, call, bound in ctx.res.callsites_of(cf):
+                if caller is None or caller in out:
+                    continue
+                a = bound.get(src_p)
+                if isinstance(a, ast.Name) and a.id in [p_ for p_ in caller.params if p_ != caller.self_name]:
+                    # not re-bound inside the wrapper
+                    if not any(isinstance(n, (ast.Assign, ast.AugAssign)) and any(isinstance(t, ast.Name) and t.id == a.id for t in (n.targets if isinstance(n, ast.Assign) else [n.target]))
+                               for n in own_nodes(caller.node)):
+                        out[caller] = (a.id, None, call)
+                        changed = True
+    return out
+
+
+def always_copying(ctx, copyfns):
+    """copyfns plus the package functions that cannot return normally without having called one of them (helpers such as
+    _place, which resolve the destination and copy)."""
+    out = set(copyfns)
+    changed = True
+    while changed:
+        changed = False
+        for cf in list(out):
+            for caller, call, bound in ctx.res.callsites_of(cf):
+                if caller is None or caller in out:
+                    continue
+                g = C.cfg_of(caller)
+                cs = [C.stmt_node(ctx, caller, c) for c in own_nodes(caller.node) if isinstance(c, ast.Call) and any(t in out for t in C.targets_of(ctx, caller, c))]
+                cs = [c for c in cs if c is not None]
+                if g.exit in g.live_nodes() and any(g.dominates(c, g.exit) for c in cs):
+                    out.add(caller)
+                    changed = True
+    return out
+
+
 def verified_source(ctx, flow, copyfns, reach):
     sites = 0
-    for cf, (src_p, dst_p, _) in copyfns.items():
+    allfns = copy_wrappers(ctx, copyfns, reach)
+    for cf, (src_p, dst_p, _) in allfns.items():
         for caller, call, bound in ctx.res.callsites_of(cf):
             if caller is None or caller not in reach:
                 continue
+            if caller in allfns and isinstance(bound.get(src_p), ast.Name) and bound.get(src_p).id == allfns[caller][0]:
+                continue            # the wrapper's own call: judged at the wrapper's call sites
             sites += 1
-            g = C.cfg_of(caller)
-            cn = C.stmt_node(ctx, caller, call)
             s = bound.get(src_p)
-            d = bound.get(dst_p)
-            # ---- the source is a search-index candidate of the enclosing loop
+            d = bound.get(dst_p) if dst_p else None
             if not isinstance(s, ast.Name):
                 ctx.violated("C14.3", caller, "the copy source %s is not a candidate variable of a search loop" % norm(s), call)
                 continue
             loop, idx, sibs = candidate_loop(ctx, caller, call, s.id)
-            it_term = flow.term(loop.iter, caller) if loop is not None else frozenset()
-            from_index = any((x[0] == "param" and x[2] in ("contents",)) or (x[0] == "ext" and x[1] in ("os.listdir", "os.walk", "os.scandir")) or (x[0] == "attr" and x[2] == "contents")
-                             for x in walk_terms(it_term))
-            if loop is None or not from_index:
-                ctx.violated("C14.3", caller, "the copy source %r is not drawn from the search index: %s" % (
-                    s.id, "no enclosing candidate loop binds it" if loop is None else "the loop iterates over " + show(it_term, maxdepth=2)[:80]), call)
-                continue
-            ctx.holds("C14.3", caller, "copy source %r is a candidate of `for %s in %s` over the search index" % (s.id, norm(loop.target), norm(loop.iter)), norm(call) + " :: source")
-            deps = g.control_deps(cn)
-            # ---- (a) size check
-            size_ok = False
-            for b, lab in deps:
-                t = C.test_expr(b)
-                if t is None:
+            if loop is not None:
+                judge_selection(ctx, flow, caller, call, s.id, norm(call))
+            else:
+                # source = select(...): the candidate is chosen by a package function; judge each place where it returns one
+                vals = [p_ for w_, p_ in ctx.res.bindings(caller).get(s.id, []) if w_ == "value"]
+                sel = [t for v in vals if isinstance(v, ast.Call) for t in C.targets_of(ctx, caller, v)] if len(vals) == 1 else []
+                rets = [(f_, r) for f_ in sel for r in own_nodes(f_.node) if isinstance(r, ast.Return) and r.value is not None and not (isinstance(r.value, ast.Constant) and r.value.value is None)]
+                if not sel or not rets:
+                    st = flow.term(s, caller)
+                    if any((x[0] == "param" and x[2] in ("contents", "filemap")) or (x[0] == "ext" and x[1] in ("os.listdir", "os.walk", "os.scandir")) or (x[0] == "attr" and x[2] == "contents")
+                           for x in walk_terms(st)) and not isinstance(vals[0] if vals else None, ast.Name):
+                        ctx.undecided("C14.3", caller, "the copy source %r comes from the search index, but not through a candidate loop or a selector function this rule can read (`%s`)" % (
+                            s.id, norm(vals[0])[:60] if vals else "?"), call)
+                    else:
+                        ctx.violated("C14.3", caller, "the copy source %r is not drawn from the search index: no enclosing candidate loop binds it" % s.id, call)
                     continue
-
-                def atom(x):
-                    if isinstance(x, ast.Compare) and len(x.ops) == 1 and isinstance(x.ops[0], (ast.Eq, ast.NotEq)):
-                        sides = [x.left, x.comparators[0]]
-                        for a, o in (sides, sides[::-1]):
-                            if isinstance(a, ast.Name) and a.id in sibs:
-                                ot = flow.term(o, caller)
-                                if any(y[0] == "ext" and y[1] == "pyben.load" for y in walk_terms(ot)):
-                                    return isinstance(x.ops[0], ast.Eq)
-                    return None
-                if C.branch_when(b, atom) == lab:
-                    size_ok = True
-            ctx.decide("C14.3", caller, size_ok, "the copy requires the candidate's size to equal the recorded length",
-                       "the copy is not conditional on the candidate's size equalling the length the metafile records", norm(call) + " :: size")
-            # ---- (b) hash check over the same candidate
-            hash_ok = False
-            why = "no controlling test compares a recorded hash with a hash computed over this candidate"
-            s_term = flow.term(s, caller)
-            for b, lab in deps:
-                t = C.test_expr(b)
-                if t is None or lab != "true":
-                    continue
-                for a in C.atoms_of(t):
-                    vt = flow.term(a, caller)
-                    res = hash_equality(vt)
-                    if res:
-                        forced = C.branch_when(b, lambda x, a=a: False if x is a else None)
-                        if forced is None or forced == lab:
-                            why = "the controlling test %s does not depend on the hash comparison alone (it can pass when the hashes differ)" % norm(t)
-                            continue
-                        if local_chain_uses(ctx, caller, a, s.id, loop):
-                            hash_ok = True
-                        else:
-                            why = "the hash that is compared is not computed from the candidate %r that gets copied" % s.id
-            ctx.decide("C14.3", caller, hash_ok, "the copy is conditional on a recorded hash equalling the hash of bytes read from this very candidate (or the recorded length being zero)",
-                       "unverified copy: " + why, norm(call) + " :: hash")
-            # ---- C14.4 destination
-            dt = flow.term(d, caller) if d is not None else frozenset()
-            from_meta = any(x[0] == "ext" and x[1] == "pyben.load" for x in walk_terms(dt))
-            from_dest = any((x[0] == "param" and x[2] in ("dest", "destination")) or (x[0] == "attr" and x[2] == "destination") for x in walk_terms(dt))
-            ctx.decide("C14.4", caller, from_meta and from_dest, "the destination is the destination argument joined with the path the metafile assigns",
-                       "the copy destination is not (destination argument + metafile-assigned path): %s" % show(dt, maxdepth=2)[:100], norm(call) + " :: destination")
+                # the copy must not run when the selector found nothing
+                g = C.cfg_of(caller)
+                cn = C.stmt_node(ctx, caller, call)
+                guarded_none = any(isinstance(C.test_expr(b), ast.Compare) and norm(C.test_expr(b).left) == s.id and isinstance(C.test_expr(b).comparators[0], ast.Constant)
+                                   and C.test_expr(b).comparators[0].value is None for b, lab in g.control_deps(cn) if C.test_expr(b) is not None) or \
+                    any(isinstance(C.test_expr(b), ast.Name) and C.test_expr(b).id == s.id for b, lab in g.control_deps(cn) if C.test_expr(b) is not None)
+                if not guarded_none and any(isinstance(r.value, ast.Constant) for f_ in sel for r in own_nodes(f_.node) if isinstance(r, ast.Return) and r.value is not None):
+                    ctx.undecided("C14.3", caller, "the copy of %r is not visibly skipped when the selector returns None" % s.id, call)
+                for f_, r in rets:
+                    if isinstance(r.value, ast.Name):
+                        judge_selection(ctx, flow, f_, r, r.value.id, "%s -> %s" % (norm(call)[:40], norm(r)))
+                    else:
+                        ctx.undecided("C14.3", f_, "selector %s returns `%s`, not a candidate variable" % (f_.name, norm(r.value)), r)
+            # ---- C14.4 destination (when the copy function takes it directly)
+            if d is not None:
+                dt = flow.term(d, caller)
+                from_meta = any(x[0] == "ext" and x[1] == "pyben.load" for x in walk_terms(dt))
+                from_dest = any((x[0] == "param" and x[2] in ("dest", "destination")) or (x[0] == "attr" and x[2] == "destination") for x in walk_terms(dt))
+                ctx.decide("C14.4", caller, from_meta and from_dest, "the destination is the destination argument joined with the path the metafile assigns",
+                           "the copy destination is not (destination argument + metafile-assigned path): %s" % show(dt, maxdepth=2)[:100], norm(call) + " :: destination")
     ctx.floor("call sites of the copy function in rebuild", 2, sites)
+
+
+def judge_selection(ctx, flow, caller, node, cand, label):
+    """The statement `node` of `caller` (a copy, or a `return cand` of a selector) uses candidate variable `cand`: it must be a
+    candidate of a loop over the search index, and reaching the statement must require the size and the hash of that very
+    candidate to match what the metafile records."""
+    g = C.cfg_of(caller)
+    cn = C.stmt_node(ctx, caller, node)
+    loop, idx, sibs = candidate_loop(ctx, caller, node, cand)
+    it_term = flow.term(loop.iter, caller) if loop is not None else frozenset()
+    from_index = any((x[0] == "param" and x[2] in ("contents",)) or (x[0] == "ext" and x[1] in ("os.listdir", "os.walk", "os.scandir")) or (x[0] == "attr" and x[2] == "contents")
+                     for x in walk_terms(it_term))
+    if loop is None or not from_index:
+        ctx.violated("C14.3", caller, "the copy source %r is not drawn from the search index: %s" % (
+            cand, "no enclosing candidate loop binds it" if loop is None else "the loop iterates over " + show(it_term, maxdepth=2)[:80]), node)
+        return
+    ctx.holds("C14.3", caller, "copy source %r is a candidate of `for %s in %s` over the search index" % (cand, norm(loop.target), norm(loop.iter)), label + " :: source")
+    deps = g.control_deps(cn)
+    # ---- (a) size check
+    size_ok = False
+    for b, lab in deps:
+        t = C.test_expr(b)
+        if t is None:
+            continue
+
+        def atom(x):
+            if isinstance(x, ast.Compare) and len(x.ops) == 1 and isinstance(x.ops[0], (ast.Eq, ast.NotEq)):
+                sides = [x.left, x.comparators[0]]
+                for a, o in (sides, sides[::-1]):
+                    if isinstance(a, ast.Name) and a.id in sibs:
+                        ot = flow.term(o, caller)
+                        if any(y[0] == "ext" and y[1] == "pyben.load" for y in walk_terms(ot)):
+                            return isinstance(x.ops[0], ast.Eq)
+            return None
+        if C.branch_when(b, atom) == lab:
+            size_ok = True
+    ctx.decide("C14.3", caller, size_ok, "the copy requires the candidate's size to equal the recorded length",
+               "the copy is not conditional on the candidate's size equalling the length the metafile records", label + " :: size")
+    # ---- (b) hash check over the same candidate, or the recorded length being zero
+    hash_ok = False
+    why = "no controlling test compares a recorded hash with a hash computed over this candidate"
+    for b, lab in deps:
+        t = C.test_expr(b)
+        if t is None:
+            continue
+        for a in C.atoms_of(t):
+            # `if not size: return path` - an empty file needs no hash
+            if lab == "true" and isinstance(t, ast.UnaryOp) and isinstance(t.op, ast.Not) and isinstance(t.operand, ast.Name) and t.operand.id in sibs and size_ok:
+                hash_ok = True
+            if lab != "true":
+                continue
+            vt = flow.term(a, caller)
+            res = hash_equality(vt)
+            if res:
+                forced = C.branch_when(b, lambda x, a=a: False if x is a else None)
+                if forced is None or forced == lab:
+                    why = "the controlling test %s does not depend on the hash comparison alone (it can pass when the hashes differ)" % norm(t)
+                    continue
+                if local_chain_uses(ctx, caller, a, cand, loop):
+                    hash_ok = True
+                else:
+                    why = "the hash that is compared is not computed from the candidate %r that gets copied" % cand
+    ctx.decide("C14.3", caller, hash_ok, "the copy is conditional on a recorded hash equalling the hash of bytes read from this very candidate (or the recorded length being zero)",
+               "unverified copy: " + why, label + " :: hash")
 
 
 def hash_equality(vt):
@@ -410,6 +502,10 @@ def local_chain_uses(ctx, fn, expr, cand, loop):
                 for a in inside:
                     if isinstance(a, ast.AugAssign) and isinstance(a.target, ast.Name) and a.target.id == n.id:
                         work.append(a.value)
+                    # x.update(f(candidate)) / x.extend(...) : a statement that feeds the object bound to x
+                    if isinstance(a, ast.Expr) and isinstance(a.value, ast.Call) and isinstance(a.value.func, ast.Attribute) \
+                            and isinstance(a.value.func.value, ast.Name) and a.value.func.value.id == n.id and a.value.func.attr in ("update", "extend", "append", "write"):
+                        work.extend(a.value.args)
     return False
 
 
